@@ -178,6 +178,19 @@ protected:
     virtual void
     accumCommentData(const XalanDOMChar*    data);
 
+    /**
+     * Check the text of a script or style element: it is written
+     * without escaping, so every character must be representable
+     * in the output encoding.
+     *
+     * @param chars the characters
+     * @param length the number of characters
+     */
+    void
+    checkRawTextCharacters(
+            const XMLCh* const  chars,
+            const size_type     length);
+
     void
     writeCharacters(const XalanDOMString&   theString);
 
